@@ -61,5 +61,5 @@ func init() {
 }
 
 func init() {
-	props["C16"] = []Stream{{"recv", genRecv}, {"loop", genLoop}}
+	props["C16"] = []Stream{{"recv", genRecv}, {"loop-once", genLoopOnce}}
 }
